@@ -282,7 +282,7 @@ func c15() []*Ob {
 		{Prop: "C15", ID: "C15.1", Engine: "FILESTATE", Floor: 40,
 			Desc:  "for every configuration and every crash prefix of create/seal/release/suicide/loader-cleanup, the loader's decision table never reaches a fatal sink, serves live fractions (ACTIVE/SEALED with the files they need), and finishes off every deletion that has begun (monotone)",
 			Check: func(c *Ctx) { fileStateObligations(c, "C15") }},
-		{Prop: "C15", ID: "C15.3", Engine: "OWN+ORDER+PROV", Floor: 6,
+		{Prop: "C15", ID: "C15.3", Engine: "OWN+ORDER+PROV", Floor: 3,
 			Desc: "oldest first, whole fractions: FracManager.fracs is stored only by Load, rotate (append at the tail) and shiftFirstFrac (drop element 0); shrinkSizes removes only through shiftFirstFrac, calls Suicide on exactly what it removed and drops it from the fraction cache; the loader sorts fraction ids before building the list",
 			Check: func(c *Ctx) {
 				owners := map[string]bool{"(*fracmanager.FracManager).Load": true, "(*fracmanager.FracManager).rotate": true, "(*fracmanager.FracManager).shiftFirstFrac": true}
@@ -368,7 +368,7 @@ func c15() []*Ob {
 					MustPrecede(c, fn, Callee("sort.Strings"), "sort.Strings(fracIDs)", Callee("(*fracmanager.loader).filterInfos"), "filterInfos")
 				}
 			}},
-		{Prop: "C15", ID: "C15.4", Engine: "DOM+ORDER", Floor: 4,
+		{Prop: "C15", ID: "C15.4", Engine: "DOM+ORDER", Floor: 2,
 			Desc: "suicide waits for a running seal: proxyFrac.Suicide waits on sealWg only when trySetSuicided reported sealing, re-reads the state after the wait, and trySetSuicided clears active/sealed only when not sealing",
 			Check: func(c *Ctx) {
 				fn := c.Fn("(*fracmanager.proxyFrac).Suicide")
